@@ -127,6 +127,22 @@ def run_case(case, ctx):
                 before = style_index(parts_of(doc))
                 prior_names = {kk[4] for kk in before if kk[3] == family or (kk[2] == style.tag.split(":")[1] and not kk[3])}
                 arg = style.serialize() if op["as_xml"] and family in STD else style
+                if op.get("attached") and arg is style:
+                    # the Style object already lives in a document (it was inserted there, or fetched with get_style): a
+                    # second insert_style moves it
+                    try:
+                        if op["attached"] == "other":
+                            Document("text").insert_style(style, automatic=automatic, default=default)
+                        else:
+                            doc.insert_style(style, automatic=not automatic and family in STD, default=False)
+                            # that first insertion replaces a same-name style of its own container: no longer "ours"
+                            inserted = [i for i in inserted if not (i[0] == family and i[1] == name)]
+                        labels.add("attached-object:" + op["attached"])
+                    except (ValueError, TypeError, AttributeError):
+                        ctx.count("attach-rejected")
+                    before = style_index(parts_of(doc))
+                    if fp not in [f for fps in before.values() for f in fps]:
+                        pass
                 same_name_before = any(kk[4] == name and (kk[3] == family) for kk in before) if named else False
                 ret = doc.insert_style(arg, automatic=automatic, default=default)
                 if same_name_before:
@@ -252,6 +268,9 @@ def run_shard(ctx):
                                "name": st.sampled_from([3, 9, 4]), "as_xml": st.just(False), "focused": st.just(True)}),
         st.fixed_dictionaries({"k": st.just("insert"), "family": fam, "mode": st.sampled_from(["common", "automatic"]),
                                "unnamed": st.booleans(), "name": st.integers(0, 2), "as_xml": st.booleans()}),
+        st.fixed_dictionaries({"k": st.just("insert"), "family": fam, "mode": st.sampled_from(["common", "common", "automatic", "default"]),
+                               "unnamed": st.just(False), "name": st.integers(0, 4), "as_xml": st.just(False), "focused": st.booleans(),
+                               "attached": st.sampled_from(["other", "other", "same"])}),
         st.fixed_dictionaries({"k": st.just("page_break")}),
         st.fixed_dictionaries({"k": st.just("table_displayed"), "flag": st.booleans()}),
         st.fixed_dictionaries({"k": st.just("delete_styles")}),
